@@ -352,7 +352,7 @@ def rule_repeats_and_sheets(ctx):
     decide_kinds(ctx, "O15.2", "ods_rows(broken repeat counts)", "cutplace.rowio.ods_rows", repeat_cell, min_cells=7)
 
     def blank_count_cell(ch):
-        count = ch.choose("text:c", ["x", "", "1.5", "1_0", "\u0662"])
+        count = ch.choose("text:c", ["x", "", "1.5", "1_0", "\u0662", "-1", "-3"])
         a = text_atom("A")
         document = build_document([[({}, [({}, [Element("text:p", text=a, children=[Element("text:s", {"text:c": count})])])])]])
         rows, outcome = run_ods_rows(model, ch, document, 1)
@@ -360,7 +360,7 @@ def rule_repeats_and_sheets(ctx):
             return ("text:c=%r" % count, None, None)
         return ("text:c=%r" % count, "broken blank count (text:c) not refused with DataFormatError", outcome if outcome != "rows" else "read %r" % ([show(v) for v in rows[0]] if rows else rows,))
 
-    decide_kinds(ctx, "O15.2", "ods_rows(broken blank counts)", "cutplace.rowio.ods_rows", blank_count_cell, min_cells=5)
+    decide_kinds(ctx, "O15.2", "ods_rows(broken blank counts)", "cutplace.rowio.ods_rows", blank_count_cell, min_cells=7)
 
     def rows_cell(ch):
         repeat = ch.choose("number-rows-repeated", [None, "1", "2", "3"])
